@@ -43,10 +43,27 @@ class DispatchingRequestHandler(BaseHTTPRequestHandler):
         path_elements = parsed_path.path.split('/')
         if len(path_elements[0]) > 0:
             return path_elements[0]
-        return path_elements[1]
+        return path_elements[1] if len(path_elements) > 1 else ''
+
+    def _send_plain_response(self, http_status: int, http_reason: str, content: bytes = b''):
+        """Send a response without soap content (request could not be read or dispatched)."""
+        self.send_response(http_status, http_reason)
+        self.send_header("Content-type", "text/plain; charset=utf-8")
+        self.send_header("Content-length", str(len(content)))
+        self.end_headers()
+        self.wfile.write(content)
 
     def do_POST(self):  # pylint: disable=invalid-name
-        request_bytes = self._read_request()
+        try:
+            request_bytes = self._read_request()
+        except Exception as ex:
+            # invalid framing or content coding: answer with an error instead of letting the exception end up in the
+            # server loop. The position in the input stream is unknown now, connection can not be re-used.
+            self.server.logger.error('could not read request {} (request from {}): {!r}',
+                                     self.path, self.client_address, ex)
+            self.close_connection = True  # pylint: disable=attribute-defined-outside-init
+            self._send_plain_response(400, 'Bad Request')
+            return
         if self.server.dispatcher is None:
             # close this connection
             self.close_connection = True  # pylint: disable=attribute-defined-outside-init
@@ -69,6 +86,10 @@ class DispatchingRequestHandler(BaseHTTPRequestHandler):
             self.send_header("Content-length", str(len(response_xml_string)))
             self.end_headers()
             self.wfile.write(response_xml_string)
+            return
+        except Exception as ex:
+            self.server.logger.error('invalid path {} (request from {}): {!r}', self.path, self.client_address, ex)
+            self._send_plain_response(400, 'Bad Request')
             return
 
         peer_name = self.connection.getpeername()
@@ -106,11 +127,25 @@ class DispatchingRequestHandler(BaseHTTPRequestHandler):
             self.send_response(404, response_xml_string)  # not found
             return
 
-        component = self.server.dispatcher.get_instance(self.get_first_path_element())
+        try:
+            component = self.server.dispatcher.get_instance(self.get_first_path_element())
+        except InvalidPathError as ex:
+            self.server.logger.error('invalid path {} (request from {}): {}', self.path, self.client_address, ex.reason)
+            self._send_plain_response(ex.status, ex.reason)
+            return
+        except Exception as ex:
+            self.server.logger.error('invalid path {} (request from {}): {!r}', self.path, self.client_address, ex)
+            self._send_plain_response(400, 'Bad Request')
+            return
 
         peer_name = self.connection.getpeername()
-        result = component.do_get(self.headers, self.path, peer_name)
-        http_status, http_reason, response_xml_string, content_type = result
+        try:
+            result = component.do_get(self.headers, self.path, peer_name)
+            http_status, http_reason, response_xml_string, content_type = result
+        except Exception as ex:
+            self.server.logger.error('exception (request from {}): {}', self.path, self.client_address, ex)
+            self._send_plain_response(500, 'exception')
+            return
 
         self.send_response(http_status, http_reason)
         response_xml_string = self._compress_if_supported(response_xml_string)
